@@ -121,16 +121,10 @@ pub fn run(words: &[&str], ctx: &mut Ctx) -> String {
     rt.block_on(async {
         let cluster = MockCluster::start(topo, handler).await;
         cluster.set_auto_use(false);
-        let session = match cluster.session_builder().build().await {
+        let session = match connect(&cluster, |b| b).await {
             Ok(s) => s,
-            Err(_) => {
-                ctx.fail("e2e keyspace: session build failed against the mock cluster");
-                return "build-failed".to_owned();
-            }
+            Err(skip) => return skip,
         };
-        if !cluster.wait_pools_full(&session, Duration::from_secs(5)).await {
-            return "pools-not-full".to_owned();
-        }
         let mut submitted: Vec<Submitted> = Vec::new();
         let mut results: Vec<bool> = Vec::new();
         let mut confirmed: Option<String> = None;
